@@ -529,6 +529,13 @@ class Interp:
                 items = v.items
             elif isinstance(v, list) and not any(isinstance(x, Each) for x in v):
                 items = v
+            if items is None and isinstance(v, Obj) and "__fields__" in v.attrs and len(v.attrs["__fields__"]) == len(target.elts):
+                items = [v.attrs[f] for f in v.attrs["__fields__"]]
+            if items is None and isinstance(v, Obj) and "__frame__" in v.attrs and v.attrs.get("__row_of__") == ("row",):
+                fr = v.attrs["__frame__"]
+                cn = fr.colnames()
+                if cn is not None and len(cn) + 1 == len(target.elts):
+                    items = [("at", ("row",), self.pm.ops.index_term(fr))] + [("at", ("row",), fr.col(c)) for c in cn]
             if items is not None and len(items) == len(target.elts):
                 for t, x in zip(target.elts, items):
                     self.assign(t, x, st)
